@@ -217,8 +217,9 @@ class Check(object):
         ev = {"property_id": self.prop, "tier": self.tier, "seed": self.seed, "level": self.level,
               "coverage": cov, "assumptions": self.assumptions, "wall_s": round(wall, 2),
               "violations": len(self.violations)}
-        os.makedirs(os.path.join(VERIF, "evidence"), exist_ok=True)
-        with open(os.path.join(VERIF, "evidence", "%s.json" % self.prop), "w") as f:
+        evdir = os.environ.get("VERIF_EVIDENCE_DIR", os.path.join(VERIF, "evidence"))
+        os.makedirs(evdir, exist_ok=True)
+        with open(os.path.join(evdir, "%s.json" % self.prop), "w") as f:
             f.write(json.dumps(ev, indent=1, sort_keys=True, default=_jdefault))
         for sig, k in sorted(self.known_hits.items()):
             print("KNOWN-FINDING: property=%s %s [%s] (%d scenarios)" % (self.prop, k["what"], sig, k["count"]))
